@@ -203,6 +203,11 @@ def cmp_rows(ctx, route, batch_out, singles, tol, what="batch row = single item"
     ctx.le(what, worst, tol, detail, route=route)
 
 
+def Outcome_ok(v):
+    from ..core import Outcome
+    return Outcome(True, v)
+
+
 def _derived():
     import copy
     return [(".copy()", lambda X: X.copy()), ("copy.copy()", copy.copy), ("copy.deepcopy()", copy.deepcopy), (".view()", lambda X: X.view()), ("full slice [:]", lambda X: X[:])]
@@ -241,6 +246,21 @@ def check_rows(case, ctx):
         for sfx, data, kw in (("", Q, {}), ("[S]", QS, {"order": "S"})):
             cmp_rows(ctx, "%s%s[derived object]" % (nm, sfx), call(lambda: meth(df(QA(data.copy(), **kw)))),
                      [call(lambda i=i: meth(df(Qn(data[i].copy(), **kw)))) for i in range(N)], TOL_CONV, what="batch row = single item on a %s of the object" % dn)
+    # ---- several methods asked of ONE array object, in turn: every answer is still the row-by-row single-item answer (a method that reads must not
+    # leave the object describing other quaternions)
+    for sfx, data, kw in (("", Q, {}), ("[S]", QS, {"order": "S"})):
+        def in_turn():
+            X = QA(data.copy(), **kw)
+            return [X.conjugate(), X.to_DCM(), X.to_angles(), X.conj(), np.asarray(X.w, float), X.to_DCM(), X.conjugate()]
+        ot = call(in_turn)
+        if ctx.returned(ot, clause="no-exception[methods in turn on one object]", route="to_DCM" + sfx):
+            c1, d1, a1, c2, w1, d2, c3 = ot.value
+            cmp_rows(ctx, "conjugate" + sfx, Outcome_ok(c1), [call(lambda i=i: Qn(data[i].copy(), **kw).conjugate) for i in range(N)], TOL_CONV, what="methods in turn on one object: conjugate() row = single item")
+            cmp_rows(ctx, "conjugate" + sfx, Outcome_ok(c3), [call(lambda i=i: Qn(data[i].copy(), **kw).conjugate) for i in range(N)], TOL_CONV, what="methods in turn on one object: conjugate() asked again, row = single item")
+            cmp_rows(ctx, "conjugate" + sfx, Outcome_ok(c2), [call(lambda i=i: Qn(data[i].copy(), **kw).conjugate) for i in range(N)], TOL_CONV, what="methods in turn on one object: conj() after conjugate(), row = single item")
+            cmp_rows(ctx, "to_DCM" + sfx, Outcome_ok(d1), [call(lambda i=i: Qn(data[i].copy(), **kw).to_DCM()) for i in range(N)], TOL_CONV, what="methods in turn on one object: to_DCM() after conjugate(), row = single item")
+            cmp_rows(ctx, "to_DCM" + sfx, Outcome_ok(d2), [call(lambda i=i: Qn(data[i].copy(), **kw).to_DCM()) for i in range(N)], TOL_CONV, what="methods in turn on one object: to_DCM() asked again, row = single item")
+            cmp_rows(ctx, "to_angles", Outcome_ok(a1), [call(lambda i=i: Qn(data[i].copy(), **kw).to_angles()) for i in range(N)], TOL_CONV, what="methods in turn on one object: to_angles() row = single item")
     if case.region == "rows:integer":
         for route, fn, args in (("to_DCM", lambda x: QA(x).to_DCM(), [Q]), ("conjugate", lambda x: QA(x).conjugate(), [Q]), ("to_angles", lambda x: QA(x).to_angles(), [Q]),
                                 ("from_rpy", lambda x: np.asarray(QA(rpy=x)), [ang]), ("q2R.v1", lambda x: o.q2R(x), [Q]), ("q2R.v2", lambda x: o.q2R(x, version=2), [Q]),
